@@ -120,6 +120,14 @@ func (n *node) writeKey(k *kbuf, pass2 bool) {
 			k.bo(pr.State == tracker.StateReplicate && pr.Inflights.Full())
 			k.u(uint64(pr.Inflights.Count()))
 		}
+		// the leader's pendingConfIndex decides whether the next conf change is accepted (and
+		// whether the next Advance auto-leaves a joint configuration): every value below the
+		// applied index behaves alike
+		if pc := n.pendingConf; pc >= st.Applied {
+			k.u(pc)
+		} else {
+			k.u(0)
+		}
 	}
 	k.u(uint64(len(n.votes)))
 	for _, v := range n.votes {
@@ -233,7 +241,7 @@ func (c *cluster) key() (uint64, []byte) {
 	u := &c.used
 	k.b = append(k.b, c.iso)
 	body := len(k.b)
-	k.b = append(k.b, u.Proposals, u.Drops, u.Dups, u.Crashes, u.Heartbeats, u.Compacts, u.ConfChanges, u.Transfers, u.Expires, u.Delays, u.Lags, u.Applies, u.Plags, u.Persists)
+	k.b = append(k.b, u.Proposals, u.Drops, u.Dups, u.Crashes, u.Heartbeats, u.Compacts, u.ConfChanges, u.Transfers, u.Expires, u.Delays, u.Lags, u.Applies, u.Plags, u.Persists, u.Batches)
 	sum := sha1.Sum(k.b)
 	return binary.LittleEndian.Uint64(sum[:8]), k.b[:body]
 }
